@@ -542,13 +542,14 @@ func TestVerif_C08_h2unit(t *testing.T) {
 // ---------------------------------------------------------------------------------------
 
 type c08h2Scenario struct {
-	name       string
-	upChunks   int  // request body chunks (0 = no body)
-	expect     bool // Expect: 100-continue
-	respChunks int  // response body chunks
-	respNoBody bool // END_STREAM on the response HEADERS
-	slotWait   bool // MAX_CONCURRENT_STREAMS = 1 and another stream holds the slot
-	slowReader bool // the caller does not read the response body while it arrives: it is buffered, unread
+	name        string
+	upChunks    int  // request body chunks (0 = no body)
+	expect      bool // Expect: 100-continue
+	respChunks  int  // response body chunks
+	respNoBody  bool // END_STREAM on the response HEADERS
+	slotWait    bool // MAX_CONCURRENT_STREAMS = 1 and another stream holds the slot
+	slowReader  bool // the caller does not read the response body while it arrives: it is buffered, unread
+	closeUnread bool // … and afterwards closes the body without reading what is buffered
 }
 
 const c08h2Chunk = 1000
@@ -958,9 +959,16 @@ func c08h2Run(sc c08h2Scenario, kind string, stopAt int) (o c08h2Obs, nPoints in
 	}
 	// the caller drains and closes what it has (the buffered bytes come before the error)
 	if resp != nil && resp.Body != nil {
-		_, derr := io.Copy(io.Discard, resp.Body)
-		if sc.slowReader && derr != nil {
-			o.read = c08h2Class(derr)
+		if !sc.closeUnread {
+			_, derr := io.Copy(io.Discard, resp.Body)
+			if sc.slowReader && derr != nil {
+				o.read = c08h2Class(derr)
+			}
+		} else if cs != nil {
+			// nobody reads: what a read would have returned is the error the response pipe was closed with
+			if perr := cs.bufPipe.Err(); perr != nil && perr != io.EOF {
+				o.read = c08h2Class(perr)
+			}
 		}
 		resp.Body.Close()
 	}
@@ -990,7 +998,20 @@ func c08h2Run(sc c08h2Scenario, kind string, stopAt int) (o c08h2Obs, nPoints in
 		}
 	}
 	sort.Strings(o.rst)
-	// the connection's books
+	// the connection's books — first what belongs to THIS request, with the other stream still holding
+	// its slot: nobody pending, no reservation, the header lock free, the stream forgotten
+	okOwn := c08h2Poll(func() bool {
+		cc.mu.Lock()
+		defer cc.mu.Unlock()
+		_, still := cc.streams[streamID]
+		return cc.streamsReserved == 0 && cc.pendingRequests == 0 && len(cc.reqHeaderMu) == 0 && (streamID == 0 || !still)
+	})
+	if !okOwn {
+		cc.mu.Lock()
+		_, still := cc.streams[streamID]
+		o.books += fmt.Sprintf(" while-the-other-stream-is-open: reserved=%d pending=%d hdrMu=%d stream-still-registered=%v", cc.streamsReserved, cc.pendingRequests, len(cc.reqHeaderMu), streamID != 0 && still)
+		cc.mu.Unlock()
+	}
 	if sc.slotWait && o.point == "slotWait" {
 		env.respHeaders(holderID, true, "204")
 	}
@@ -1023,6 +1044,7 @@ func c08h2Scenarios() []c08h2Scenario {
 		{name: "upload", upChunks: 3, respChunks: 1},
 		{name: "upload-expect", upChunks: 2, expect: true, respChunks: 1},
 		{name: "get-slow-reader", respChunks: 2, slowReader: true},
+		{name: "get-slow-reader-closes-unread", respChunks: 2, slowReader: true, closeUnread: true},
 		{name: "slotwait-get", slotWait: true, respChunks: 1},
 		{name: "slotwait-upload", slotWait: true, upChunks: 1, respNoBody: true},
 	}
